@@ -6,18 +6,24 @@
      .prior_tuples_ordered_by_id                   -> ordered_ids
      Model/Collection._instance_for_arguments,
      TuplePrior.value_for_arguments,
-     CompoundPrior._instance_for_arguments         -> inst
+     CompoundPrior._instance_for_arguments,
+     ModifiedPrior (NegativePrior / AbsolutePrior)._instance_for_arguments -> inst
    Parametric in the value type V and the arithmetic on it. Executable definitions only. *)
 From Coq Require Import List String Bool Arith PeanoNat.
 Import ListNotations.
 Local Open Scope string_scope.
 Local Open Scope list_scope.
 
-Inductive binop := OAdd | OSub | OMul | ODiv.
+Inductive binop := OAdd | OSub | OMul | ODiv | OFloorDiv | OMod.   (* Sum, -, Multiple, Division, FloorDiv (//), Mod (%) Prior *)
+(* ModifiedPrior forms with an exact value semantics: NegativePrior (-p), AbsolutePrior (abs(p)).
+   (OSub is kept for clients that want it; the composition API never builds it: a - b is
+   SumPrior(a, NegativePrior(b)), i.e. NBin OAdd _ _ a (NUn UNeg _ b), see ArithmeticMixin.__sub__.) *)
+Inductive unop := UNeg | UAbs.
 
 Section Tree.
   Variable V : Type.
   Variable bin : binop -> V -> V -> V.
+  Variable un : unop -> V -> V.
 
   (* prior identity = its id; tuple members carry their name and the index parsed from it *)
   Inductive node :=
@@ -25,6 +31,7 @@ Section Tree.
   | NConst (v : V)
   | NTuple (members : list (string * (nat * node)))
   | NBin (o : binop) (ln rn : string) (l r : node)
+  | NUn (o : unop) (nm : string) (c : node)      (* ModifiedPrior: operand kept under attribute nm (_prior_name) *)
   | NModel (cls : string) (ctor : list string) (attrs : list (string * node))
   | NColl (attrs : list (string * node)).
 
@@ -47,6 +54,7 @@ Section Tree.
     | NBin _ ln rn l r =>
         if String.eqb ln rn then prefix_paths rn (walk r)
         else prefix_paths ln (walk l) ++ prefix_paths rn (walk r)
+    | NUn _ nm c => prefix_paths nm (walk c)
     | NModel _ _ attrs | NColl attrs =>
         (fix go (a : list (string * node)) : list (path * nat) :=
            match a with
@@ -94,7 +102,7 @@ Section Tree.
   | ITup (vs : list ival)
   | IObj (cls : string) (fields : list (string * ival))
   | IColl (fields : list (string * ival))
-  | IMissing.                                   (* KeyError: no argument for a prior *)
+  | IMissing.     (* the call raises (KeyError: no argument for a prior; AttributeError / TypeError: unary form of a non-scalar) *)
 
   Fixpoint assoc {B} (k : string) (l : list (string * B)) : option B :=
     match l with
@@ -126,6 +134,13 @@ Section Tree.
           match inst l, inst r with
           | IV a, IV b => IV (bin o a b)
           | _, _ => IMissing
+          end
+      | NUn o _ c =>
+          (* op(self.prior.instance_for_arguments(arguments)): no try/except here, an operand that is
+             not a model object (a float) raises AttributeError; a non-scalar operand raises TypeError *)
+          match c with
+          | NConst _ => IMissing
+          | _ => match inst c with IV a => IV (un o a) | _ => IMissing end
           end
       | NModel cls ctor attrs =>
           let vals := (fix go (a : list (string * node)) : list (string * ival) :=
@@ -185,6 +200,7 @@ Section Tree.
         | NBin _ ln rn l r =>
             if String.eqb k rn then prior_at p' r
             else if String.eqb k ln then prior_at p' l else None
+        | NUn _ nm c => if String.eqb k nm then prior_at p' c else None
         | NModel _ _ attrs | NColl attrs =>
             (fix go (a : list (string * node)) : option nat :=
                match a with
@@ -211,6 +227,6 @@ Section Tree.
   Definition inst_from_paths (n : node) (pv : list (path * V)) : ival := inst (path_args n pv) n.
 End Tree.
 
-Arguments NPrior {V}. Arguments NConst {V}. Arguments NTuple {V}. Arguments NBin {V}.
+Arguments NPrior {V}. Arguments NConst {V}. Arguments NTuple {V}. Arguments NBin {V}. Arguments NUn {V}.
 Arguments NModel {V}. Arguments NColl {V}.
 Arguments IV {V}. Arguments ITup {V}. Arguments IObj {V}. Arguments IColl {V}. Arguments IMissing {V}.
